@@ -149,7 +149,11 @@ def mf_case(draw, metric_keys=("lin", "max", "npint", "npfloat", "count", "selec
                 "kind": draw(st.sampled_from(["list", "ndarray", "series", "ndarray2d"])),
                 "index": draw(gen.index_plan),
             }
-        items.append({"name": nm, "func": key, "params": params})
+        item = {"name": nm, "func": key, "params": params}
+        unused = [pn for pn in avail if pn not in params]
+        if unused and draw(st.integers(0, 4)) == 0:
+            item["none_params"] = [unused[0]]
+        items.append(item)
     case = {
         "n": n,
         "sf": {"cols": sf_cols, "names": list(sf_names), "kind": draw(st.sampled_from(gen.feature_kinds(n_sf))),
@@ -225,6 +229,8 @@ def build_metricframe_kwargs(case):
         sparams[it["name"]] = {
             pn: gen.wrap_vector(p["kind"], p["values"], p["index"], name=pn) for pn, p in it["params"].items()
         }
+        for pn in it.get("none_params", []):  # a parameter given as None counts as not supplied
+            sparams[it["name"]][pn] = None
     if case["mode"] == "callable":
         it = case["metrics"][0]
         kw["metrics"] = funcs[it["name"]]
